@@ -37,8 +37,11 @@ def run(ctx):
     ctx.step(query, ctx)
     ctx.step(common.no_repeated_moves, ctx, "C18.broadcast",
              [f for f in ctx.fb.functions() if f.file.endswith("/DelayedObjects.hpp")], floor=2)
+    ctx.step(common.no_uninitialised_locals, ctx, "C18.init",
+             [f for f in ctx.fb.functions() if f.file.endswith("/DelayedObjects.hpp")], floor=10)
     ctx.step(common.find_results_checked, ctx, "C18.lookup",
              [f for f in ctx.fb.functions() if f.file.endswith("/DelayedObjects.hpp")], floor=4)
+    ctx.step(common.generic_witnesses, ctx, "C18.generic", ["C18"])
     ctx.step(common.raii_only, ctx, "C18.raii", ["DelayedObjects.hpp"], floor=5)
 
 
@@ -105,8 +108,7 @@ def _map_of(f, p, at=None):
     return None
 
 
-def pair(ctx):
-    rid = "C18.pair"
+def pair(ctx, rid="C18.pair"):
     ctx.rule(rid, "set_value only on a promise still in a pending map; then moved to the matching used map and removed "
              "from the pending map before the lock is released; removal only after set_value", floor=6)
     fb = ctx.fb
